@@ -75,7 +75,7 @@ class TwoTimeBathCorrelations(BaseAPIClass):
         self._initial_state = initial_state
 
         if system_correlations is None:
-            self._system_correlations = np.array([[]], dtype=NpDtype)
+            self._system_correlations = np.zeros((0, 0), dtype=NpDtype)
         else:
             self._system_correlations = system_correlations
         self._temp = bath.correlations.temperature
@@ -179,7 +179,7 @@ class TwoTimeBathCorrelations(BaseAPIClass):
         corr_mat_dim = len(self._process_tensor)
         dt = self._process_tensor.dt
         last_time = corr_mat_dim * dt
-        tlist = np.arange(0, last_time+dt, dt)
+        tlist = np.arange(corr_mat_dim+1) * dt
         if freq == 0:
             return tlist, np.ones(len(tlist),
                                   dtype=NpDtype) * (np.nan + 1.0j*np.nan)
